@@ -49,6 +49,7 @@ def regenerate(ctx):
     rt.apply_entry_locks(facts, roots)
     disc = rt.discipline(facts, roots)
     facts["discipline"] = disc
+    facts["token_oracle_missing"] = rt.token_oracle(facts, str(vlib.REPO))
     txt = rt.emit_lean(facts, disc)
     out = vlib.LEAN / "BFL" / "Gen" / "RaceTable.lean"
     changed = (not out.exists()) or out.read_text() != txt
@@ -248,6 +249,10 @@ def run(ctx):
         for mod, log in bad:
             ctx.violation("leanchecker:" + mod, "leanchecker rejects the compiled module %s: %s" % (mod, log[-300:]), {"module": mod, "log": log}, no_input=True)
         ctx.notes.append("leanchecker re-checked BFL.Props.C10 and BFL.Gen.RaceTable: %s" % ("ok" if not bad else "FAILED"))
+    for mo in facts["token_oracle_missing"][:5]:
+        ctx.violation("correspondence:translator-missed-access:%s:%s" % (mo["function"], mo["member"]),
+                      "the source text of %s (%s:%d) mentions member %s but the table has no access row for it (translator incomplete)" % (
+                          mo["function"], mo["file"], mo["line"], mo["member"]), mo, no_input=True)
     missing = facts["discipline"]["missing_roots"]
     if any(missing.values()):
         problems.append("entry points of the role map not found in the source: %s" % missing)
@@ -343,6 +348,10 @@ def run(ctx):
                   "reach_controller": len(facts["discipline"]["reach"]["controller"]), "reach_filter": len(facts["discipline"]["reach"]["filter"]),
                   "field_kinds": {k: sum(1 for f in F if f["kind"] == k) for k in ("atomic", "plain", "mutex", "condvar", "other")}},
         "verdict_source": vsource,
+        "translator_cross_check": {"rule": "every identifier naming a data member (…_) inside the source extent of a member function has a table row",
+                                   "functions_scanned": sum(1 for m in facts["methods"] if m["body"] and m.get("end_line")),
+                                   "missing_rows": len(facts["token_oracle_missing"])},
+        "entry_locksets": facts.get("entry_locks", {}),
         "shared_members_disciplined": disciplined_shared, "shared_members_undisciplined": undisciplined,
         "tsan": {"runs": len(runs), "filter_steps": steps, "commands_issued": cmds, "command_histogram": hist, "runs_by_kind": {k: sum(1 for r in runs if (" %s " % k) in r["line"]) for k in KINDS},
                  "reports": sum(r["reports"] for r in runs), "undisciplined_observed_in_runs": per_loc,
